@@ -16,8 +16,8 @@ ASSUMPTIONS = [
     'simulated workers die only while IDLE or RUNNING; Td is the fake time of the '
     'supervision step that reaped the worker',
     'zones of open known findings are excluded by construction and counted '
-    '(imap part owner dies, death reaped before its ACK is consumed, faults '
-    'after close)',
+    '(death reaped before its ACK is consumed, faults after close); losses of '
+    'imap parts are generated and judged item by item',
 ]
 SHARDS = {'quick': 8, 'thorough': 16}
 WALL_LIMIT = {'quick': 1500, 'thorough': 6 * 3600}
@@ -45,11 +45,15 @@ def _nontrivial(labels, sim):
 
 
 execute_sim = make_execute({'c04'}, _nontrivial, prop='C04')
-PARTS = {'sim': execute_sim, 'real': rp.execute_c04}
-EXPLORE = {'sim': (sim_cases(), execute_sim), 'real': (rp.c04_cases(), rp.execute_c04)}
+PARTS = {'sim': execute_sim, 'real': rp.execute_c04,
+         'realimap': rp.execute_c04_imap}
+EXPLORE = {'sim': (sim_cases(), execute_sim), 'real': (rp.c04_cases(), rp.execute_c04),
+           'realimap': (rp.c04_imap_cases(), rp.execute_c04_imap)}
 
 
 def run(ctx):
     ctx.explore('sim', sim_cases(), execute_sim, n=ctx.pick(250, 25000))
     ctx.explore('real', rp.c04_cases(), rp.execute_c04, n=ctx.pick(3, 40),
                 shrink_budget=6, reexecute_confirm=2)
+    ctx.explore('realimap', rp.c04_imap_cases(), rp.execute_c04_imap,
+                n=ctx.pick(2, 30), shrink_budget=6, reexecute_confirm=2)
